@@ -208,9 +208,10 @@ CLAIM.update({
 
 PLAN["C02"] = dict(
     quick=[dict(test="TestC02Rapid", checks=500), dict(test="TestC02Service", checks=600), dict(test="TestC02Pipeline", checks=1500), *shards("TestC02EveryCut", 4),
-           dict(test="TestC02Concurrent"), dict(test="TestC02Concurrent", shard=0, nshards=2, env={"GOMAXPROCS": "1"})],
+           dict(test="TestC02Concurrent"), dict(test="TestC02Concurrent", shard=0, nshards=2, env={"GOMAXPROCS": "1"}), dict(test="TestC02BigClose")],
     thorough=[*shards("TestC02Rapid", 8, checks=2500), *shards("TestC02Service", 6, checks=3000), *shards("TestC02Pipeline", 4, checks=20000), *shards("TestC02EveryCut", 4),
-              dict(test="TestC02Concurrent"), dict(test="TestC02Concurrent", env={"GOMAXPROCS": "1"}), dict(test="TestC02Concurrent", env={"GOMAXPROCS": "4"})],
+              dict(test="TestC02Concurrent"), dict(test="TestC02Concurrent", env={"GOMAXPROCS": "1"}), dict(test="TestC02Concurrent", env={"GOMAXPROCS": "4"}),
+              *shards("TestC02BigClose", 4)],
 )
 
 PLAN["C11"] = dict(
